@@ -45,6 +45,7 @@ EDIT_CLASSES = [
     ("param_becomes_channel", False, "CommandHashData", "channels"),
     ("extra_file", False, "CommandHashData", "name"),
     ("array_param_elem", False, "ParameterHashData", "array_element"),
+    ("event_file", False, "EventHashData", "file_path"),
     ("channel_serde_rename", False, "ChannelHashData", "serde_rename"),
     ("field_serde_default", False, "FieldHashData", "serde_default"),
     ("cmd_order", False, "CommandHashData", "name"),
@@ -67,7 +68,7 @@ def alt(v, options):
 
 def render_sources(st):
     g = lambda a: st.get(a, 0)
-    field_attr = alt(g("field_serde_rename"), ["", '    #[serde(rename = "displayName")]\n', '    #[serde(rename = "label")]\n', '    #[serde(rename = "user_name")]\n'])
+    field_attr = alt(g("field_serde_rename"), ["", '    #[serde(rename = "displayName")]\n', '    #[serde(rename = "label")]\n', '    #[serde(rename = "user_name")]\n', '    #[serde(rename = "\u00e9tat")]\n', '    #[serde(rename = "\u01e9tat")]\n'])
     validator = alt(g("validator"), ["", '    #[validate(length(min = 1, max = 20, message = "short"))]\n',
                                      '    #[validate(length(min = 2, max = 30, message = "other text"))]\n'])
     rename_all = alt(g("struct_rename_all"), ["", '#[serde(rename_all = "camelCase")]\n', '#[serde(rename_all = "SCREAMING_SNAKE_CASE")]\n'])
@@ -119,6 +120,10 @@ def render_sources(st):
     files = {"src/models.rs": src, "src/commands.rs": cmds, "src/lib.rs": "mod models;\nmod commands;\n"}
     files["src/keys.rs"] = "#[tauri::command]\npub fn import_key(key: %s, label: String) -> bool {\n    true\n}\n" % alt(
         g("array_param_elem"), ["[u8; 4]", "[String; 4]", "[bool; 2]"])
+    if not st.get("_noevents", False):
+        # a helper (no command) holding the only emission of one event: the file it lives in is nobody's business
+        files["src/%s.rs" % alt(g("event_file"), ["notify", "notices", "nudge"])] = (
+            "use tauri::Emitter;\n\npub fn tick(app: &tauri::AppHandle) {\n    app.emit(\"helper-tick\", 1u32).ok();\n}\n")
     if g("extra_file") % 2 == 1:
         files["src/bin/helper.rs"] = "#[tauri::command]\npub fn ping(target: String) -> String {\n    target\n}\n"
     if st.get("_nocommands", False):
@@ -248,7 +253,16 @@ class Sandbox:
     def run(self, forced=False, fault=None, kind=None, leftover=None):
         undo = self.obstacle(fault, kind) if fault is not None else None
         undo_left = None
-        if leftover:
+        if leftover and kind == "probe":
+            # the write probe of the output manager cannot be created (a directory of its name is in the way); the binding
+            # files themselves stay writable
+            pd = os.path.join(self.out, ".write_test_generated")
+            os.makedirs(pd, exist_ok=True)
+
+            def undo_left():
+                if os.path.isdir(pd):
+                    os.rmdir(pd)
+        elif leftover:
             # a stale file of a generated-looking name that cannot be removed (immutable)
             os.makedirs(self.out, exist_ok=True)
             lp = os.path.join(self.out, leftover)
